@@ -308,7 +308,43 @@ func (s *c20Sess) mutateBlockInner(inner []byte) ([]byte, string) {
 	nsb := gx * gy * gzz
 	posCounts := 16 + 8*numLabels
 	posIdx := posCounts + 2*nsb
-	switch r.Intn(9) {
+	switch r.Intn(10) {
+	case 8:
+		// a block rebuilt from scratch, every table consistent, except that one sub-block lists more labels
+		// than a sub-block has voxels (513..numLabels of a table of 513..712 labels); 512 is the legal maximum
+		if nsb > 0 && nsb <= 64 {
+			L := 513 + r.Intn(200)
+			n := []int{512, 513, 513 + r.Intn(L-512), L}[r.Intn(4)]
+			k := r.Intn(nsb)
+			nb := make([]byte, 16, 16+8*L+2*nsb+4*(n+nsb)+640)
+			copy(nb, b[:12])
+			binary.LittleEndian.PutUint32(nb[12:], uint32(L))
+			for i := 0; i < L; i++ {
+				nb = binary.LittleEndian.AppendUint64(nb, uint64(1000+i))
+			}
+			for i := 0; i < nsb; i++ {
+				c := 1
+				if i == k {
+					c = n
+				}
+				nb = binary.LittleEndian.AppendUint16(nb, uint16(c))
+			}
+			for i := 0; i < nsb; i++ {
+				c := 1
+				if i == k {
+					c = n
+				}
+				for j := 0; j < c; j++ {
+					nb = binary.LittleEndian.AppendUint32(nb, uint32(j))
+				}
+			}
+			bits := 9
+			if n > 512 {
+				bits = 10
+			}
+			nb = append(nb, make([]byte, 64*bits)...)
+			return nb, fmt.Sprintf("rebuilt block: table of %d labels, sub-block %d lists %d labels (consistent index list and %d value bytes)", L, k, n, 64*bits)
+		}
 	case 0:
 		v := hostileInts[r.Intn(len(hostileInts))]
 		binary.LittleEndian.PutUint32(b[12:], v)
